@@ -59,6 +59,26 @@ CLAIMED = {
         design_ref="DESIGN.md section 5, C12",
         technique="Coq proof (fold over multiplier triples; integer lattice arithmetic by ring/div-mod) with model/implementation correspondence on grid coordinates",
         note=NOTE_COMMON + " Clause resting on correspondence only: multiset of replicated terms; original object unmodified (Python mutation)."),
+    "C01": dict(
+        text="Theorem C01_sound (all structures, patterns, tolerances, hints, and EVERY quaternion construction and random choice): each "
+             "reported match lists one stored atom per pattern atom with the pattern's element, at stored position + one of the 27 lattice "
+             "offsets, with a non-zero quaternion whose rotation (orthogonal and orientation-preserving for any non-zero quaternion, by ring "
+             "identities) carries the pattern onto the returned positions within the np.allclose bound. Distinctness of the atoms and the "
+             "agreement of the float acceptance test with the exact one are checked on every returned match in exact integer arithmetic "
+             "inside Coq; the set of matched groups is compared with the model's.",
+        design_ref="DESIGN.md section 5, C01",
+        technique="Coq proof (soundness of the search model for all rot/pick parameters; rotation identities by ring) with exact re-checking of every returned match and model/implementation correspondence on planted problems",
+        note=NOTE_COMMON + " Clause checked per output rather than proved: the listed atoms are distinct (needs a separation hypothesis on the pattern)."),
+    "C02": dict(
+        text="Theorems (all inputs, all rot/pick): no atom group is reported twice (keys of the first-seen grouping are NoDup and every "
+             "ordering in a group has the group's key); the reported groups are exactly the candidate groups with an accepted ordering; "
+             "nothing outside the tolerance is reported (C01_sound). Completeness (every planted copy is found) is PARTIAL: it depends on "
+             "the floating-point quaternion construction, a parameter of the model, and is validated on every run against planted ground "
+             "truth (copies across faces, edges, all eight corners, axis-aligned and exactly antiparallel poses, both tilt signs) for both "
+             "the implementation and the model's integer construction.",
+        design_ref="DESIGN.md section 5, C02",
+        technique="Coq proof (uniqueness and no-spurious for all parameters) plus planted-ground-truth correspondence for completeness (partial)",
+        note=NOTE_COMMON + " Partial: completeness is validated by correspondence, not proved."),
 }
 
 PENDING_REASON = "no check registered yet: the Coq model and correspondence for this property are still being built (see DESIGN.md section 7 work order); nothing is claimed"
